@@ -13,7 +13,7 @@ PROP = {'lean_props': ['Comrak.Props.C06'],
                        'emphasis_terminates',
                        'emphasis_linear',
                        'emphasis_linear_bytes',
-                       'emphasis_linear_ext',
+                       'emphasis_linear_of',
                        'emphasis_linear_old_noodd',
                        'emphasis_pinned_not_linear_counterexample',
                        'emphasis_fixed_on_family',
@@ -36,9 +36,9 @@ PROP = {'lean_props': ['Comrak.Props.C06'],
  'timeout_quick': 900,
  'timeout_thorough': 3400,
  'strength': 'partial (memos, opener search, caps, size bounds): theorems for the escapers, the backtick scanner with its positional memo as '
-             'implemented (3n), process_emphasis as the code is since /repo commit 9704a60 (termination; 19 n + chars opener-search steps for every '
-             'text whose delimiters are * and _ runs - a theorem about the current loop with its 17 openers_bottom slots, tied to the real counter '
-             'by K equality; the loop before that commit: quadratic lower bound on the rule-of-three family, kept as a historical counterexample), the '
+             'implemented (3n), process_emphasis as the code is since /repo commits 9704a60 and e31def4 (termination; 44 n + chars opener-search steps '
+             'for every text and every delimiter character - a theorem about the current loop with its 42 openers_bottom slots, tied to the real '
+             'counter by K equality for * _ ~; the loop before those commits: quadratic lower bound on the rule-of-three family, kept as a historical counterexample), the '
              'dollar scanners as the code is since /repo commits 657287d and b4925f3 (code-dollar: 3n dollar-scan steps, math-dollar with or '
              'without code-dollar: 5n, for every text - theorems about the current scanners with their no-closer memos, tied to the real counter '
              'by K equality; the memo-less scanner before those commits: quadratic lower bound, kept as history), HTML output size (per node for all 41 kinds, whole '
@@ -52,12 +52,12 @@ PROP = {'lean_props': ['Comrak.Props.C06'],
                   'backticks_pos_linear is proved for the positional memo model btStepsPos (run-level: gaps and run lengths); that this model '
                   'counts what the code counts is the K stage (equality with the real backtick-scan counter on exhaustive short and random '
                   'texts), and the 3n bound is checked again on every one of those texts',
-                  'emphasis_linear is proved for the delimiter-stack model emLoop true (17 slots, bottom raised after every failed * / _ search); that '
-                  'the model counts what the code counts is the K stage (equality with the real emphasis-opener-search counter on all one-paragraph texts over {*,_,a,space} up to '
-                  'length 8/9 and on random texts; delimiter runs are extracted by a driver-side model of scan_delims for ASCII); smart quotes and '
-                  'the ~ length-mismatch exit of insert_emph are not modelled; for ~ ^ | closers (guarded update kept by the code) the bound needs the '
-                  'hypothesis emRaiseOk (no odd match among their openers), emphasis_linear_ext; process_emphasis calls with a non-zero stack_bottom '
-                  '(from brackets) are outside K',
+                  'emphasis_linear is proved for the delimiter-stack model emLoop true (42 slots, bottom raised after every failed search, the ~ exit of '
+                  'insert_emph included); that the model counts what the code counts is the K stage (equality with the real emphasis-opener-search '
+                  'counter on all one-paragraph texts over {*,_,a,space} up to length 8/9, over {*,_,~,a,space} with strikethrough on up to length 7/8, '
+                  'and on random texts; delimiter runs are extracted by a driver-side model of scan_delims for ASCII, with ~ as a skip character); '
+                  'smart quotes are not modelled; ^ and | (superscript, spoiler) are covered by the theorem but not exercised by K; process_emphasis '
+                  'calls with a non-zero stack_bottom (from brackets) are outside K',
                   'dollar_linear / math_dollar_linear are proved for the byte-level model dlLoop true (handle_dollars with both scanners and their '
                   'memos no_code_dollar_closer and no_dollar_closer_before[len], handle_backticks with its positional memo, handle_backslash); that the model counts what the code counts is the K '
                   'stage: equality with the real dollar-scan counter with math_code on over {$,`,a,\\} and with math_dollars on (with and without '
@@ -69,9 +69,9 @@ PROP = {'lean_props': ['Comrak.Props.C06'],
 
 TEXT = {'text': 'Proof (partial). Lean proves: escape and escape_href write at most 6 bytes per input byte; the backtick scanner with its positional memo, as '
          'implemented, takes at most 3n counted steps over a whole inline text (a memo entry ahead of the current position always points at a run '
-         'that is still ahead, so after the first scan that runs to the end no scan fails again); process_emphasis, as the code is since /repo commit 9704a60 (17 openers_bottom slots, the bottom raised after '
-         'every failed search of a * or _ closer), terminates and its opener search takes at most 19 n + chars steps on every text whose delimiters '
-         'are * and _ runs (n runs, chars delimiter characters; at most 20 steps per delimiter byte), while the loop before that commit took at '
+         'that is still ahead, so after the first scan that runs to the end no scan fails again); process_emphasis, as the code is since /repo commits 9704a60 and e31def4 (42 openers_bottom slots - six per '
+         'delimiter character -, the bottom raised after every failed search), terminates and its opener search takes at most 44 n + chars steps on '
+         'every text, whatever its delimiter characters (n runs, chars delimiter characters; at most 45 steps per delimiter byte), while the loop before those commits took at '
          'least m^2/2 steps on 4m delimiter runs of the rule-of-three family (former known finding, now fixed; kept as a counterexample theorem about the old loop); the HTML '
          'formatter model writes at most 6 bytes per byte of document text + 364 bytes per node + the decimal strings (trees without footnote '
          'definitions, header_ids off or anchors bounded); the dollar scanners as the code is since /repo commits 657287d and b4925f3 (a code-dollar scan that '
@@ -88,12 +88,12 @@ TEXT = {'text': 'Proof (partial). Lean proves: escape and escape_href write at m
          'random texts with runs up to 200; dollar-scan == the byte-level model of the current scanners on all texts over {$,`,a,\\} up to length 8 / 9 with math_code, on all '
          'texts over {$,`,a,\\,space,1} up to length 6 / 7 with math_dollars (with and without math_code), on random ones and on the families of '
          'the former findings (the model of the scanners before the repair differs on ~2300 of them); emphasis-opener-search == the delimiter-stack model of the current loop on all '
-         'texts over {*,_,a,space} up to length 8 / 9, random ones and the rule-of-three family (the model of the loop before the repair differs on ~1500 of them); the proved bounds are re-checked on every text. Search (always full volume): for every fragment up to length '
+         'texts over {*,_,a,space} up to length 8 / 9, all texts over {*,_,~,a,space} containing ~ up to length 7 / 8 with strikethrough on, random ones and the rule-of-three families (the model of the loop before the repair differs on ~2000 of them); the proved bounds are re-checked on every text. Search (always full volume): for every fragment up to length '
          '3/4 over a 30-symbol Markdown alphabet and ~150 curated shapes, families f^n, (f LF)^n, f^n a mirror(f)^n and tree-shaped repetitions '
          'are parsed and rendered (HTML, CommonMark, XML) under default, GFM and all-extensions options in isolated workers; the log-log slope '
          'of the 12 summed step counters between the two largest n must stay <= 1.25 and output <= 160 n + 4096. Four super-linear classes of '
          'the pinned tree are listed as known findings (code-dollar scanner, math-dollar scanner with escaped dollars, recursive e-mail autolink '
-         'pass, emphasis opener search under the rule of three; all four since repaired in /repo, commits 657287d + b4925f3, e3c39db and 9704a60, and listed as fixed). Instruction counts: for 20 payload contexts (link destination, title, info string, reference label and definition, autolink, code span, alert title, wikilink, HTML attribute, heading, table cell, footnote label, task item, math, description details) filled with n copies of a fragment, and for the curated nesting shapes, one worker process per input is run under valgrind (cachegrind, no cache simulation) at n = 6000 and 12000 and the log-log slope of the executed instructions above the empty-document run must stay <= 1.40: this sees copying, memmove, hashing and formatting that no step counter sits in (it found the nested footnote-label finding, and it is what reports a quadratic helper under the cleaning functions).',
+         'pass, emphasis opener search under the rule of three; all four since repaired in /repo, commits 657287d + b4925f3, e3c39db and 9704a60 + e31def4, and listed as fixed). Instruction counts: for 20 payload contexts (link destination, title, info string, reference label and definition, autolink, code span, alert title, wikilink, HTML attribute, heading, table cell, footnote label, task item, math, description details) filled with n copies of a fragment, and for the curated nesting shapes, one worker process per input is run under valgrind (cachegrind, no cache simulation) at n = 6000 and 12000 and the log-log slope of the executed instructions above the empty-document run must stay <= 1.40: this sees copying, memmove, hashing and formatting that no step counter sits in (it found the nested footnote-label finding, and it is what reports a quadratic helper under the cleaning functions).',
  'note': 'Trusted: Lean kernel + standard axioms; harness, worker protocol, hook lines, valgrind instruction counts; work outside the hooked loops is covered by instruction counts on the payload-context and nesting families and by wall clock elsewhere.',
  'technique': 'Lean 4 cost models with proved bounds + step-counter correspondence through cfg(comrak_verif) hooks + growth-exponent search on '
               'input families in isolated processes',
